@@ -56,7 +56,14 @@ EXTENDS Integers, Sequences, FiniteSets
 
 Range(s) == {s[i] : i \in DOMAIN s}
 
-Norm(p) == [fam |-> p.fam, oct |-> p.oct, len |-> p.len]
+(* identity of a prefix: family, length, address with the bits beyond the length cleared *)
+Mask(oct, n) ==
+  [i \in 1..Len(oct) |->
+     LET lo == (i - 1) * 8 IN
+     IF n >= lo + 8 THEN oct[i]
+     ELSE IF n <= lo THEN 0
+     ELSE LET sh == 2 ^ (8 - (n - lo)) IN (oct[i] \div sh) * sh]
+Norm(p) == [fam |-> p.fam, oct |-> Mask(p.oct, p.len), len |-> p.len]
 AfFam(af) == IF af \in {"ip", "ipv4"} THEN 4 ELSE IF af = "ipv6" THEN 6 ELSE 0
 MaxLen(fam) == IF fam = 4 THEN 32 ELSE 128
 
@@ -159,18 +166,17 @@ Activated(prog, vrf, peer, fam) ==
   \/ \E i \in AfIdx(prog, vrf) : LET s == prog.afstmts[i] IN s.kind = "activate" /\ s.peer = peer /\ AfFam(s.af) = fam
   \/ fam = 4 /\ "no bgp default ipv4-unicast" \notin Flags(prog, vrf) /\ NbrIdx(prog, vrf, peer) # {}
 
-(* name of the route-map applied to (peer, family, direction); "" = none *)
-Policy(prog, vrf, peer, fam, dir) ==
-  LET I == {i \in AfIdx(prog, vrf) : LET s == prog.afstmts[i] IN
-              s.kind = "route-map" /\ s.peer = peer /\ AfFam(s.af) = fam /\ s.dir = dir} IN
-  IF I = {} THEN "" ELSE prog.afstmts[CHOOSE i \in I : \A j \in I : j <= i].name
+(* the `route-map` statements for (peer, family, direction); the last one counts *)
+PolicyIdx(prog, vrf, peer, fam, dir) ==
+  {i \in AfIdx(prog, vrf) : LET s == prog.afstmts[i] IN
+     s.kind = "route-map" /\ s.peer = peer /\ AfFam(s.af) = fam /\ s.dir = dir}
 
 Verdict(prog, vrf, peer, q, dir) ==
   IF ~Activated(prog, vrf, peer, q.fam) THEN [permit |-> FALSE, attrs |-> NoAttrs]
-  ELSE LET R == Policy(prog, vrf, peer, q.fam, dir) IN
-       IF R = "" THEN [permit |-> ~(IsEBGP(prog, vrf, peer) /\ "no bgp ebgp-requires-policy" \notin Flags(prog, vrf)),
+  ELSE LET I == PolicyIdx(prog, vrf, peer, q.fam, dir) IN
+       IF I = {} THEN [permit |-> ~(IsEBGP(prog, vrf, peer) /\ "no bgp ebgp-requires-policy" \notin Flags(prog, vrf)),
                        attrs |-> NoAttrs]
-       ELSE RmApply(prog, R, q)
+       ELSE RmApply(prog, prog.afstmts[CHOOSE i \in I : \A j \in I : j <= i].name, q)
 
 Originated(prog, vrf) ==
   IF "no bgp network import-check" \notin Flags(prog, vrf) THEN {}
